@@ -103,7 +103,46 @@ func (c *ctx) extraFacts() *leanFile {
 
 	// getHashCode: per switch case, the sequence of write calls before the index path
 	var keyCases []string
-	if fd := c.funcDecl("", "getHashCode"); fd != nil {
+	keyFn := c.funcDecl("", "getNodeKey")
+	if keyFn == nil {
+		keyFn = c.funcDecl("", "getHashCode")
+	}
+	// what is written before the switch (the node-type tag), and whether the key itself — a string — is the identity:
+	// the function returns the buffer's string, and the tables of ancestor:: and union are keyed by strings
+	var keyHead []string
+	keyIsString := false
+	if fd := keyFn; fd != nil && fd.Body != nil {
+		for _, st := range fd.Body.List {
+			if _, isSwitch := st.(*ast.SwitchStmt); isSwitch {
+				break
+			}
+			if es, ok := st.(*ast.ExprStmt); ok {
+				keyHead = append(keyHead, squeeze(c.src(es.X)))
+			}
+		}
+		if fd.Type.Results != nil && len(fd.Type.Results.List) == 1 && squeeze(c.src(fd.Type.Results.List[0].Type)) == "string" {
+			if r, ok := fd.Body.List[len(fd.Body.List)-1].(*ast.ReturnStmt); ok && len(r.Results) == 1 && strings.HasSuffix(squeeze(c.src(r.Results[0])), ".String()") {
+				keyIsString = true
+			}
+		}
+		// every map declared or made in query.go that is indexed by the result of this function has string keys
+		for _, f := range c.files {
+			ast.Inspect(f, func(n ast.Node) bool {
+				if mt, ok := n.(*ast.MapType); ok {
+					if k := squeeze(c.src(mt.Key)); k == "uint64" {
+						pos := c.fset.Position(mt.Pos())
+						if strings.HasSuffix(pos.Filename, "query.go") {
+							keyIsString = false
+						}
+					}
+				}
+				return true
+			})
+		}
+	}
+	l.p("/-- getNodeKey: what is written before the switch on the node type -/\ndef nodeKeyHead : List String := %s\n\n", leanStrList(keyHead))
+	l.p("/-- node identity is the key string itself (getNodeKey returns the buffer's string; no map keyed by uint64 in query.go) -/\ndef nodeKeyIsString : Bool := %s\n\n", leanBool(keyIsString))
+	if fd := keyFn; fd != nil {
 		ast.Inspect(fd.Body, func(n ast.Node) bool {
 			cc, ok := n.(*ast.CaseClause)
 			if !ok {
@@ -303,7 +342,7 @@ func (c *ctx) extraFacts() *leanFile {
 	l.p("\n/-- functionArgs: dynamic types of an argument query that are used without cloning -/\ndef functionArgsExempt : List String := %s\n", leanStrList(exempt))
 	l.p("\n/-- functionArgs: every other argument query is cloned for the call -/\ndef functionArgsClonesOtherwise : Bool := %s\n", leanBool(clonesOtherwise))
 
-	c.facts["extraFacts"] = map[string]interface{}{"replaceResultSrc": replSrc, "functionArgsExempt": exempt, "functionArgsClonesOtherwise": clonesOtherwise, "filterInputFlagsSrc": inFlags, "filterCondFlagsSrc": condFlags, "hashKeyCases": keyCases,
+	c.facts["extraFacts"] = map[string]interface{}{"nodeKeyHead": keyHead, "nodeKeyIsString": keyIsString, "replaceResultSrc": replSrc, "functionArgsExempt": exempt, "functionArgsClonesOtherwise": clonesOtherwise, "filterInputFlagsSrc": inFlags, "filterCondFlagsSrc": condFlags, "hashKeyCases": keyCases,
 		"writeKeyPartSrc": partSrc, "asBoolFloatSrc": asBoolFloat, "substringBoundsSrc": sub, "stringToNumberSrc": s2n, "asStringFloatSrc": asStr, "modCallbackSrc": modSrc}
 	return l
 }
